@@ -86,6 +86,12 @@ CHECKS = {
         "assumptions": A_SIM + ["timeouts are the adapter's completion with system.timeout, not elapsed time"],
         "parts": [sim(300, 5000)],
     },
+    "C19": {
+        "level": "exploration",
+        "rule": "(a) unit: rescache.Throttle with limits 1-4 under rapid-generated Add/Done sequences against a queue model (running <= limit, FIFO starts, every Done with waiters starts exactly one, everything added eventually starts); (b) simulator scenarios with resetThrottle / referenceThrottle N in {0,1,2,3,5}: reset fan-outs over 1-40 cached resources and 1-32 connections (many connections on one resource) with resource and/or access patterns, optionally a second overlapping reset; reference trees of width/depth <= 4 with shared and cyclic children, one root per connection; answers oldest-first, newest-first or drawn; oracle: at every quiescent step the governed requests outstanding are <= N (x throttles alive), with N = 0 all are sent at once, and at the end every governed request was sent (exact count for a single reset) and every client request answered. Non-trivial = fan-out > N > 0 with an answer order other than arrival order; distinct by script hash",
+        "assumptions": A_SIM + ["the bound is tight (N) for a single reset / single loading root; for overlapping resets it is N x live throttles"],
+        "parts": [sim(150, 2500), unit("C19-throttle", 3000, 40000)],
+    },
     "C07": {
         "level": "exploration",
         "rule": "rapid stateful generation of request mixes (1-2 connections, subscribe/get/unsubscribe/call/auth/new/ill-formed methods, every outcome and order of the dependent access/get/call answers, events, deletes, revocations), end-of-history epilogue answering everything; oracle: reference client counts responses per id (never two, never unknown, error objects with string code/message) and at quiescence every id on an open connection has exactly one. Non-trivial = >=2 requests for one rid overlapped, or an unsubscribe/unsubscribe event/delete hit a rid with a pending request; distinct by hash of the executed script",
@@ -103,6 +109,8 @@ CHECKS = {
 SIM_NOTE = "trusted: the harness (mock mq, reference client/service, quiescence detector) and rapid; exploration never proves absence; goroutine interleavings inside the gateway are sampled only"
 
 META = {
+    "C19": {"engine": "sim", "design_ref": "6 C19", "technique": "scenario-based property testing (rapid) with a step invariant on outstanding governed requests and stall detection at exact quiescence; model-based unit test of Throttle",
+            "text": "generated topologies, limits and answer orders; the bound is an invariant checked after every answer, progress is checked as the absence of a stall.", "note": SIM_NOTE},
     "C13": {"engine": "sim", "design_ref": "6 C13", "technique": "stateful property-based testing (rapid) with trace invariants on query/get requests and the convergence and exactly-one-response oracles",
             "text": "generated aliasing-query histories with every answer order and outcome of the query requests; the capacity-countdown lock is attacked through stall detection at exact quiescence.", "note": SIM_NOTE},
     "C15": {"engine": "sim", "design_ref": "6 C15", "technique": "fault-injecting stateful property-based testing (rapid) with journal-based crash attribution, decoder property tests and native fuzzing",
